@@ -42,6 +42,17 @@ CHECKS["C20"] = dict(level="exploration", engine="E4-domain",
    note="Trusted: the reference parser encodes the README grammar; where the documentation is silent (key reference differing from the column name only in case, trailing comma) either outcome is accepted. entries_per_node=1 is not exercised.",
    ref="§5 C20")
 
+CHECKS["C01"] = dict(level="model_checking", engine="E1-histories",
+   technique="exhaustive enumeration of all multi-writer statement histories up to a depth (all write-time orders, writer assignments, refresh/merging-open placements and version-list permutations) executed on the real extension; convergence oracles on every reached state",
+   text="Every history of up to 3 (quick) / 4 (thorough) statements over {INSERT(b,c), INSERT(b), UPDATE b, UPDATE c, UPDATE b+c, DELETE} by up to 3 writers, with every assignment of distinct write-time ranks (so decreasing times occur), every canonical assignment to writers, two base states, and up to one refresh or merging open by a fresh client at every position with every permutation of the version list at that open (hook H3), is executed on the real code. At the end of each: a read-only open under every permutation of the heads shows the same rows; resurrecting every retired ancestor (subsets up to 3 in thorough) and merging it again in both orders changes nothing; a read-write open keeps the rows and a second one issues no PUT/DELETE and leaves the object set unchanged; across histories, equal sets of statement-bearing versions (by canonical content) show equal rows. Thorough adds two keys on multi-level trees (entries_per_node=2).",
+   note="Trusted: fake store = S3 consistency; clients run sequentially (request interleavings are C03); write-time ties are outside the property. Bounded: nothing is claimed beyond the stated depth.",
+   ref="§5 C01")
+CHECKS["C02"] = dict(level="model_checking", engine="E1-histories",
+   technique="same exhaustive history enumeration as C01; oracle = executable reference model of the README conflict rule (fold of accepted statements in write-time order) compared with a fresh reader and with every writer's own view",
+   text="The C01 history space (up to 3/4 statements, 3 writers, all write-time orders incl. decreasing, all writer assignments, refresh points) is executed on the real extension through SQLite (so which columns an UPDATE assigns is decided by SQLite's no-change mechanism); after each history the rows seen by a fresh reader must equal the reference model R-row over all accepted statements, and each writer's own view must equal R-row over the statements it issued or merged. The single-writer histories are part of the space, which gives 'same on one writer or spread over several' directly.",
+   note="Trusted: R-row is a literal transcription of the README rule and of the property text (status = latest INSERT/DELETE, DELETE sticky until a later INSERT, per-column greatest write time since that INSERT). Ties in write time excluded.",
+   ref="§5 C02")
+
 NOT_YET = {}
 
 props = [json.loads(l) for l in open("properties.jsonl")]
